@@ -1,12 +1,14 @@
 import MCHap.Properties.C19
-#print axioms MCHap.C19.depths_config_independent
-#print axioms MCHap.C19.depths_monotone_in_filters
+#print axioms MCHap.C19.enginePasses_engineCfgOf
 #print axioms MCHap.C19.depths_eq_spec_partial
+#print axioms MCHap.C19.filter_option_effect
+#print axioms MCHap.C19.depths_monotone_in_filters
 #print axioms MCHap.C19.depths_ne_spec_witness
+#print axioms MCHap.C19.old_engine_regression
 #print axioms MCHap.C19.specDepth_monotone_in_filters
 #print axioms MCHap.C19.specDepth_filter_effect
-#print axioms MCHap.C19.indOk_iff
 #print axioms MCHap.C19.keepAllele_iff
+#print axioms MCHap.C19.indOk_iff
 #print axioms MCHap.C19.listed_iff_thresholds
 #print axioms MCHap.C19.emitted_iff_two
 #print axioms MCHap.C19.ref_first_masked_iff
